@@ -25,13 +25,13 @@ PRE = [{"op": "distribute"}, {"op": "update_borrowing"}, {"op": "update_funding"
 
 # ---------------------------------------------------------------------------------------------
 # histories
-def random_batch(ctx, name, n, runs, seed, vi=3, proto=False):
+def random_batch(ctx, name, n, runs, seed, vi=3, proto=False, d=1):
     tr, ops = ctx.path(name + ".ndjson"), ctx.path(name + ".ops.ndjson")
-    args = ["random", "--seed", seed, "--n", n, "--runs", runs, "--d", 1, "--vi", vi, "--out", tr, "--ops", ops]
+    args = ["random", "--seed", seed, "--n", n, "--runs", runs, "--d", d, "--vi", vi, "--out", tr, "--ops", ops]
     if proto:
         args += ["--proto", 1]
     vlib.log("  " + ctx.run_bin("hist", args).strip())
-    return mh.Batch(name, tr, ops)
+    return mh.Batch(name, tr, ops, cfg=None if d == 1 else "Trace_Exchange_d2")
 
 
 def expand(op):
@@ -73,12 +73,12 @@ def scenario_rows(n):
                # LP round trip
                {"op": "deposit", "l": 7 + k % 13, "s": 40 + 9 * (k % 11)}, {"op": "withdraw", "rt": True},
                # position round trips on both sides (open, immediate full close)
-               {"op": "increase", "pos": a, "size": big, "coll": (big // 30 + 1) if a % 2 == 1 else big // 3 + 1},
+               {"op": "increase", "pos": a, "size": big, "coll": (big // 15 + 1) if a % 2 == 1 else 2 * big // 3 + 1},
                {"op": "decrease", "pos": a, "size": 100000, "cap": True},
                {"op": "increase", "pos": b, "size": small, "coll": (small // 20 + 1) if b % 2 == 1 else small // 2 + 1},
                {"op": "decrease", "pos": b, "size": 100000, "cap": True},
                # build open interest on both sides, let time pass
-               {"op": "increase", "pos": a, "size": big, "coll": (big // 30 + 1) if a % 2 == 1 else big // 3 + 1},
+               {"op": "increase", "pos": a, "size": big, "coll": (big // 15 + 1) if a % 2 == 1 else 2 * big // 3 + 1},
                {"op": "increase", "pos": b, "size": small, "coll": (small // 20 + 1) if b % 2 == 1 else small // 2 + 1},
                {"op": "tick", "dt": 1 + k % 3},
                {"op": "swap", "long_in": k % 2 == 0, "amt": 9 if k % 2 == 0 else 110},
@@ -98,14 +98,47 @@ def scenario_rows(n):
                {"op": "withdraw", "mt": 500},
                # operations that must fail, some after having written part of the state (deposit above the pool cap,
                # withdrawal of more than the supply), some before (empty deposit / swap / withdrawal, swap beyond the pool)
-               {"op": "deposit", "l": 0, "s": 0}, {"op": "deposit", "l": 100001 + k, "s": 3},
+               {"op": "deposit", "l": 0, "s": 0}, {"op": "deposit", "l": 0, "s": 130001 + k},
                {"op": "swap", "long_in": True, "amt": 0}, {"op": "swap", "long_in": k % 2 == 0, "amt": 5000 + 100 * k},
-               {"op": "withdraw", "mt": 0}, {"op": "withdraw", "mt": 10000000},
+               {"op": "withdraw", "mt": 0}, {"op": "withdraw", "mt": 9000},
                {"op": "increase", "pos": 5 + k % 4, "size": 3900, "coll": 1 + k % 5},
                {"op": "decrease", "pos": 5 + k % 4, "size": 10}]
         rows += [dict(RESET, fp=fp, bp=bp, fe=fe, ip=ip, vi=vi), {"op": "init"}]
         for o in seq:
             rows += [o] if o["op"] in ("price", "tick", "distribute") else act(o)
+    return rows
+
+
+def liquidity_rows(n):
+    """swap / deposit / withdraw sequences under price spreads on every token and swap impact / fee presets:
+    imbalancing and rebalancing steps in both directions (negative, positive and capped positive swap impact),
+    with and without the virtual inventory for swaps, with open interest in the market"""
+    rows = []
+    combos = [(0, 1, 3, 3), (4, 2, 1, 3), (2, 0, 3, 2), (7, 3, 0, 3), (0, 1, 1, 2), (3, 4, 3, 3)]
+    for k in range(n):
+        fp, bp, fe, ip = combos[k % len(combos)]
+        lp, sp = 8 + k % 5, 1 + k % 2
+        seq = [{"op": "price", "imin": lp, "imax": lp + 1, "lmin": lp, "lmax": lp + (k % 3 > 0), "smin": sp, "smax": sp + (k % 4 > 1)},
+               {"op": "deposit", "l": 60 + 7 * (k % 5), "s": (900 - 60 * (k % 7)) // sp},
+               {"op": "increase", "pos": 1 + k % 4, "size": 150 + 10 * (k % 6), "coll": 20 if (k % 4) % 2 == 0 else 160 // sp}]
+        amts = [(True, 3 + k % 4), (True, 20 + k % 9), (False, 150 // sp), (False, 40 + 7 * (k % 5)), (True, 1), (False, 330 // sp),
+                (True, 35), (False, 11), (True, 9 + k % 3), (False, 500 // sp)]
+        for j, (side, amt) in enumerate(amts):
+            seq.append({"op": "swap", "long_in": side, "amt": amt})
+            if j % 3 == 1:
+                seq.append({"op": "deposit", "l": (5 + k % 4) if j % 2 else 0, "s": 0 if j % 2 else 70 // sp})
+            if j % 4 == 2:
+                seq += [{"op": "tick", "dt": 1 + j % 2}, {"op": "withdraw", "mt": 80 + 13 * j}]
+            if j == 5:
+                seq.append({"op": "price", "imin": lp + 1, "imax": lp + 2, "lmin": lp + 1, "lmax": lp + 2, "smin": sp, "smax": sp + 1})
+        seq += [{"op": "deposit", "l": 9, "s": 90 // sp}, {"op": "withdraw", "rt": True}]
+        rows += [dict(RESET, fp=fp, bp=bp, fe=fe, ip=ip, vi=k % 2 == 1), {"op": "init"}]
+        for o in seq:
+            if o["op"] in ("deposit", "withdraw", "increase"):
+                rows += [dict(x) for x in PRE]
+            elif o["op"] == "swap":
+                rows.append({"op": "update_borrowing"})
+            rows.append(o)
     return rows
 
 
@@ -148,7 +181,7 @@ def classify(ev, res, idx, mon, fails_at):
 
 # ---------------------------------------------------------------------------------------------
 def judge(ctx, batch, cov, fails_out, drift_out):
-    fails, drifts, r = ctx.validate_trace(TRACE, batch.trace, timeout=3000)
+    fails, drifts, r = ctx.validate_trace(TRACE, batch.trace, cfg=batch.cfg, timeout=3000)
     ev = vlib.read_ndjson(batch.trace)
     res = mh.residuals(ev)
     what = {}
@@ -269,9 +302,12 @@ def run(ctx):
         random_batch(ctx, "random_raw", 6000 if q else 40000, 120 if q else 800, seed),
         random_batch(ctx, "random_protocol", 6000 if q else 40000, 100 if q else 700, seed + 1, proto=True),
         mh.replay_batch(ctx, "scenarios", scenario_rows(48 if q else 400)),
+        mh.replay_batch(ctx, "liquidity", liquidity_rows(60 if q else 600)),
         mh.replay_batch(ctx, "funding_cross_collateral", mh.cross_collateral_scenarios(24 if q else 240)),
         mh.replay_batch(ctx, "model_exhaustive", model_scripts_to_ops(ex_scripts[: (150 if q else 1500)])),
         mh.replay_batch(ctx, "model_simulation", model_scripts_to_ops(sim_scripts[: (100 if q else 800)])),
+        # the same specification text at the finer unit (DECIMALS = 2, Unit = 100)
+        random_batch(ctx, "random_raw_d2", 2000 if q else 20000, 40 if q else 400, seed + 2, d=2),
     ]
 
     # ---- 3. full conformance + monitors
@@ -339,7 +375,13 @@ def selftest(ctx, n=4000):
     batches = [random_batch(ctx, "random_raw", n, n // 50, seed),
                random_batch(ctx, "random_protocol", n, n // 60, seed + 1, proto=True),
                mh.replay_batch(ctx, "scenarios", scenario_rows(32)),
+               mh.replay_batch(ctx, "liquidity", liquidity_rows(48)),
                mh.replay_batch(ctx, "funding_cross_collateral", mh.cross_collateral_scenarios(12))]
+    # behaviours printed by the bounded model in the last full run (operation scripts), if any
+    for name in ("model_exhaustive", "model_simulation"):
+        ops = os.path.join(vlib.VERIF, "work", "EXCHANGE", name + ".ops.ndjson")
+        if os.path.exists(ops):
+            batches.append(mh.replay_batch(ctx, name, vlib.read_ndjson(ops)))
     cov, fails, drift_samples = new_cov(), collections.Counter(), []
     for b in batches:
         judge(ctx, b, cov, fails, drift_samples)
